@@ -3,6 +3,8 @@ package checks
 import (
 	"bytes"
 	"fmt"
+	"sort"
+	"strings"
 	"time"
 
 	pt "github.com/weedbox/pokertable"
@@ -91,13 +93,34 @@ func (m *c10Mon) batch(p *Play, e *h.Ev, phase string, allowed map[string][]stri
 		}
 	}
 	targets = append(targets, target{"stranger", "stranger"})
+	// strangers whose id looks like the id of a player the hand is waiting on (other letter case, padded, prefix,
+	// extension): everything is refused, also the kinds the real player may submit (round 7)
+	var askedIDs []string
+	for id, al := range allowed {
+		if len(al) > 0 {
+			askedIDs = append(askedIDs, id)
+		}
+	}
+	sort.Strings(askedIDs)
+	if len(askedIDs) > 0 {
+		id := askedIDs[r.Intn(len(askedIDs))]
+		alike := []string{strings.ToUpper(id), id + " ", " " + id, id + "0", id[:len(id)-1], ""}
+		for _, a := range alike {
+			if a != id && h.PlayerIdx(t, a) < 0 {
+				targets = append(targets, target{a, "look-alike-stranger"})
+			}
+		}
+	}
 	for _, tg := range targets {
 		for _, a := range h.AllActions {
 			if has(allowed[tg.id], a) {
 				continue
 			}
 			// sample: always probe the cheap cases fully for small tables, a random half otherwise
-			if len(targets) > 5 && r.Intn(2) == 0 {
+			if len(targets) > 5 && r.Intn(2) == 0 && !(tg.class == "look-alike-stranger" && a != "ready" && a != "pass" && a != "pay") {
+				continue
+			}
+			if tg.class == "look-alike-stranger" && r.Intn(3) != 0 && (a == "ready" || a == "pass") {
 				continue
 			}
 			cls := tg.class
